@@ -9,6 +9,7 @@ import (
 	"fmt"
 	"os"
 	"runtime"
+	"strconv"
 	"strings"
 	"sync"
 	"sync/atomic"
@@ -312,13 +313,67 @@ func closeRace(rounds int) string {
 	return fmt.Sprintf("sessclose returned=%d panics=%d again=1 queryerr=closed open=0", ret, atomic.LoadInt64(&panics))
 }
 
+// monitorsOf: the observation part of a pipeobs line (what the monitors saw), without the schedule.
+func monitorsOf(line string) string {
+	var out []string
+	for _, w := range strings.Fields(line) {
+		for _, k := range []string{"maxconns=", "orphans=", "closedconns=", "afterclose=", "leaked=", "stack=", "stalled="} {
+			if strings.HasPrefix(w, k) {
+				out = append(out, w)
+			}
+		}
+	}
+	return strings.Join(out, " ")
+}
+
+var replayN int
+
+// exec (replay): the conducted schedules and the scripted-fate scenarios are run again on the real code.
 func exec(op string) string {
 	w := strings.Fields(op)
+	replayN++
+	label := fmt.Sprintf("r%d", replayN)
 	switch w[0] {
 	case "poolobs", "debrace", "sessclose":
 		return "accept"
-	case "model":
+	case "model", "hsmodel", "pipemodel":
 		return "(model only)"
+	case "pipe":
+		cfg, ok := parsePipeCfg(w[1:])
+		i := 0
+		for i < len(w) && w[i] != ":" {
+			i++
+		}
+		if !ok || i == len(w) {
+			return "bad-op"
+		}
+		_, impl, _ := runPipe(label, cfg, w[i+1:], nil, 0)
+		return impl
+	case "pipeobs":
+		fresh := ""
+		for _, x := range w {
+			if strings.HasPrefix(x, "sched=bseed:") {
+				bs, _ := strconv.ParseUint(strings.Split(strings.TrimPrefix(x, "sched=bseed:"), ",")[0], 10, 64)
+				fresh = runPipeB(label, bs)
+			} else if strings.HasPrefix(x, "sched=") {
+				cfg, ok := parsePipeCfg(w[1:])
+				if !ok {
+					return "bad-op"
+				}
+				var acts []string
+				if x != "sched=-" {
+					acts = strings.Split(strings.TrimPrefix(x, "sched="), ",")
+				}
+				_, _, fresh = runPipe(label, cfg, acts, nil, 0)
+			}
+		}
+		if fresh == "" {
+			return "bad-op"
+		}
+		if monitorsOf(fresh) == monitorsOf(op) {
+			return "accept"
+		}
+		return "observed-now:" + strings.ReplaceAll(monitorsOf(fresh), " ", ",")
 	}
 	return "bad-op"
 }
@@ -333,6 +388,7 @@ func main() {
 	}
 	r := vh.NewRng(vh.EnvSeed())
 	out := vh.NewOut(path)
+	dumpDir = path
 	mult := 1
 	if tier == "thorough" {
 		mult = 12
@@ -413,7 +469,47 @@ func main() {
 		os.Exit(3)
 	}
 	out.Case(op, "accept", "sessclose/race", true)
-	// 4. model-only sanity lines (documented examples of the machine)
+	// 4. the connect pipeline: conducted schedules (model-predicted) and scripted-fate scenarios (monitors)
+	nA, nB := 200*mult, 48*mult
+	type pres struct{ op, impl, obs string }
+	pr := make([]pres, nA+nB)
+	aseeds := make([]uint64, nA+nB)
+	for i := range aseeds {
+		aseeds[i] = r.U64()
+	}
+	var pwg sync.WaitGroup
+	psem := make(chan struct{}, 8)
+	for i := range pr {
+		pwg.Add(1)
+		psem <- struct{}{}
+		go func(i int) {
+			defer pwg.Done()
+			defer func() { <-psem }()
+			if i < nA {
+				ar := vh.NewRng(aseeds[i])
+				cfg := genPipeCfg(ar)
+				op, impl, obs := runPipe(fmt.Sprintf("a%d", i), cfg, nil, genChooser(ar, cfg), 14+ar.Intn(14))
+				pr[i] = pres{op, impl, obs}
+			} else {
+				pr[i] = pres{obs: runPipeB(fmt.Sprintf("b%d", i), aseeds[i]%1000000007)}
+			}
+		}(i)
+	}
+	pwg.Wait()
+	for i := range pr {
+		if strings.HasPrefix(pr[i].impl, "fatal") || strings.HasPrefix(pr[i].obs, "fatal") {
+			fmt.Fprintln(os.Stderr, pr[i].impl, pr[i].obs)
+			os.Exit(3)
+		}
+		if i < nA {
+			w := strings.Fields(pr[i].op)
+			out.Case(pr[i].op, pr[i].impl, "pipe/"+w[1]+"/"+w[2], true)
+			out.Case(pr[i].obs, "accept", "pipeobs/A", true)
+		} else {
+			out.Case(pr[i].obs, "accept", "pipeobs/B", true)
+		}
+	}
+	// 5. model-only sanity lines (documented examples of the machine)
 	out.Case("model 2 fillStart dialOk dialFail fillStop fillStart connError dialOk fillStop fillStart close dialOk", "conns=0 pending=0 filling=true closed=true opened=0", "model", true)
 	out.Close(nil)
 }
